@@ -285,6 +285,7 @@ class FnInfo:
         self.nodes = own_nodes(fn)
         # local assignments: name -> list of (value expr | None, guards)
         self.assigned = {}
+        self.plain = {}       # local name -> [(value, guards)] for `name = <expr>` statements only
         self.idioms = []
         self._collect_assignments()
 
@@ -298,6 +299,8 @@ class FnInfo:
                 if isinstance(st, ast.Assign):
                     for t in st.targets:
                         self._bind(t, st.value, tests)
+                        if isinstance(t, ast.Name) and len(st.targets) == 1:
+                            self.plain.setdefault(t.id, []).append((st.value, list(tests)))
                 elif isinstance(st, ast.AugAssign):
                     self._bind(st.target, st.value, tests)
                 elif isinstance(st, ast.AnnAssign) and st.value is not None:
@@ -375,6 +378,25 @@ class FnInfo:
                             out |= self.deps(t, seen)
         return out
 
+    def alias_of(self, name):
+        """A local bound exactly once in the whole def, by an unconditional top-level
+        `name = p` / `name = self.a` / `name = <literal>` (not a loop, with, walrus or
+        comprehension target), stands for that parameter / attribute / literal."""
+        if name in self.params or len(self.assigned.get(name, [])) != 1 or len(self.plain.get(name, [])) != 1:
+            return None
+        val, tests = self.plain[name][0]
+        if tests or not any(st is not None and isinstance(st, ast.Assign) and st.value is val for st in self.fn.body):
+            return None
+        if isinstance(val, ast.Name) and val.id in self.params and val.id != self.self_name \
+                and (val.id not in self.assigned or val.id in self.idioms):
+            return AExpr("FromParam", val.id)
+        if isinstance(val, ast.Attribute) and isinstance(val.value, ast.Name) and self.self_name is not None \
+                and val.value.id == self.self_name:
+            return AExpr("FromAttr", val.attr)
+        if isinstance(val, ast.Constant):
+            return AExpr("Const", repr(val.value))
+        return None
+
     def classify(self, e):
         if isinstance(e, ast.Name):
             if e.id in self.params and e.id != self.self_name:
@@ -384,6 +406,9 @@ class FnInfo:
             if e.id == self.self_name:
                 return AExpr("Other", "self", ())
             if e.id in self.assigned:
+                al = self.alias_of(e.id)
+                if al is not None:
+                    return al
                 return AExpr("Other", "local " + e.id, sorted(self.deps(e)))
             return AExpr("Other", "global " + e.id, ())
         if isinstance(e, ast.Attribute) and isinstance(e.value, ast.Name) and e.value.id == self.self_name \
